@@ -498,7 +498,9 @@ func c20Pool(k c20Key, thorough bool) []string {
 		}
 		return p
 	}
-	p := []string{"verif-A", "verif B/with space"}
+	// the '$' values: a loader that expands ${VAR} / $VAR in file text or values is not "the file's value"
+	// (HOME and PATH are set in the child's environment, so expansion changes them visibly)
+	p := []string{"verif-A", "verif B/with space", "pa$$w0rd$x9", "${HOME}/x-$PATH-%d"}
 	if thorough {
 		p = append(p, "/abs/path/x.db", "a=b", "#not-a-comment", "true", "123", "null", "~", "x: y", "\"quoted\"", "'single'", "ünïcode", "UPPER lower", " lead", "trail ", "back\\slash", "{brace}", "[1,2]", "@at", "%p", "*star", "&amp", "!bang", "|pipe", ">gt", "`tick`", "-", "- item", "? q", ": c")
 	}
